@@ -22,14 +22,13 @@ static int KSI_TreeNode_join(KSI_CTX *ctx, KSI_DataHasher *hsr, KSI_TreeNode *le
 __CPROVER_requires(hsr != NULL)
 __CPROVER_requires(leftSibling == NULL || leftSibling != rightSibling)
 __CPROVER_requires(TN_WELLFORMED(leftSibling) && TN_WELLFORMED(rightSibling))
-__CPROVER_requires(g_tr_n == 0 && !g_tr_failed && g_tr_hsr == NULL && !g_tr_hsr_mixed)
-/* (1) accepted  =>  arguments and level arithmetic are fine and no callee failed */
-__CPROVER_ensures(IMPLIES(__CPROVER_return_value == KSI_OK, JOIN_ARGS_OK && JOIN_LEVELS_OK && !g_tr_failed))
+/* (1) accepted  =>  arguments and level arithmetic are fine and no callee failed during this call */
+__CPROVER_ensures(IMPLIES(__CPROVER_return_value == KSI_OK, JOIN_ARGS_OK && JOIN_LEVELS_OK && g_tr_failed == __CPROVER_old(g_tr_failed)))
 /* (2) refused  =>  there is a reason: bad argument, level outside 0..255, a hasher error, or no memory */
 __CPROVER_ensures(IMPLIES(__CPROVER_return_value != KSI_OK,
 		!JOIN_ARGS_OK || !JOIN_LEVELS_OK || g_tr_failed || __CPROVER_return_value == KSI_OUT_OF_MEMORY))
 /* (3) bad arguments / level outside 0..255 are refused BEFORE any state change: the hasher is not even touched */
-__CPROVER_ensures(IMPLIES(!JOIN_ARGS_OK || !JOIN_LEVELS_OK, __CPROVER_return_value != KSI_OK && g_tr_n == 0))
+__CPROVER_ensures(IMPLIES(!JOIN_ARGS_OK || !JOIN_LEVELS_OK, __CPROVER_return_value != KSI_OK && g_tr_n == __CPROVER_old(g_tr_n)))
 /* (4) the new root: level = max(l, r) + 1, links set both ways, hash = result of the hasher transcript */
 __CPROVER_ensures(IMPLIES(__CPROVER_return_value == KSI_OK,
 		__CPROVER_is_fresh(*root, sizeof(KSI_TreeNode)) &&
@@ -38,8 +37,9 @@ __CPROVER_ensures(IMPLIES(__CPROVER_return_value == KSI_OK,
 		leftSibling->parent == *root && rightSibling->parent == *root &&
 		(*root)->ctx == ctx && (*root)->metaData == NULL && (*root)->hash != NULL && (*root)->hash == g_tr_result &&
 		(*root)->hash->ref == 1))
-/* (5) hash step order: reset, left, right, one byte == new level, close - all on the hasher given */
-__CPROVER_ensures(IMPLIES(__CPROVER_return_value == KSI_OK,
+/* (5) hash step order (stated for a transcript that was empty at entry): reset, left, right, one byte == new
+ *     level, close - all on the hasher given */
+__CPROVER_ensures(IMPLIES(__CPROVER_return_value == KSI_OK && __CPROVER_old(g_tr_n) == 0 && __CPROVER_old(g_tr_hsr) == NULL && !__CPROVER_old(g_tr_hsr_mixed),
 		g_tr_hsr == hsr && !g_tr_hsr_mixed &&
 		g_tr_n == 3u + TN_EVENTS(leftSibling) + TN_EVENTS(rightSibling) &&
 		g_tr[0].kind == TR_RESET &&
